@@ -183,7 +183,13 @@ func (c *C) Rand() *rand.Rand { return c.rng }
 
 // SetDetail installs a lazily rendered description of the case input, stored
 // with violations (and printed on replay).
-func (c *C) SetDetail(f func() string) { c.detail = f }
+func (c *C) SetDetail(f func() string) {
+	c.detail = f
+	if c.r.Verbose {
+		fmt.Printf("CASE seq=%d case=%s\n%s\n", c.Seq, c.ID, f())
+		os.Stdout.Sync()
+	}
+}
 
 // Count increments a coverage counter.
 func (c *C) Count(name string) { c.r.Count(name, 1) }
